@@ -20,6 +20,9 @@ import (
 
 func init() { checks["C13"] = c13 }
 
+// set by c13store.go (needs the verif build tag: the store constructor is added by overlay)
+var c13StorePass func(rep *evid.Reporter, shapes []logShape) int
+
 type logShape struct {
 	Name string
 	Mk   func() *ledger.Log
@@ -303,7 +306,13 @@ func c13() int {
 			}
 		}
 	})
+	storeChecked := 0
+	if c13StorePass != nil {
+		storeChecked = c13StorePass(rep, all)
+		transitions += int64(storeChecked)
+	}
 	cov := evid.Coverage{
+		"store_round_trips_on_pgmini":   storeChecked,
 		"engine_written_entries":        int(engineEntries),
 		"states":                        int(states),
 		"transitions":                   int(transitions),
